@@ -16,11 +16,11 @@ for d in /verif/seeded/*/; do
   if $applies; then
     # demo without the change
     cp $d/demo.rs tests/seed_demo.rs
-    timeout 900 cargo test --offline --test seed_demo > $W/log_without.txt 2>&1; demo_without=$?
+    timeout -k 5 900 cargo test --offline --test seed_demo > $W/log_without.txt 2>&1; demo_without=$?
     git apply $d/patch.diff 2>/dev/null || git apply --3way $d/patch.diff >/dev/null 2>&1
-    timeout 900 cargo test --offline --test seed_demo > $W/log_with.txt 2>&1; demo_with=$?
+    timeout -k 5 900 cargo test --offline --test seed_demo > $W/log_with.txt 2>&1; demo_with=$?
     rm -f tests/seed_demo.rs
-    timeout 1200 cargo test --workspace --no-fail-fast --offline > $W/log_suite.txt 2>&1; suite=$?
+    timeout -k 5 1200 cargo test --workspace --no-fail-fast --offline > $W/log_suite.txt 2>&1; suite=$?
     npass=$(grep -E "^test result: ok\. 361 passed" $W/log_suite.txt | wc -l)
   fi
   python3 - "$d" "$applies" "$suite" "$demo_with" "$demo_without" "${npass:-0}" <<'PY'
